@@ -55,6 +55,7 @@ type vpFS struct {
 	stored   int    // WriteAt calls that changed the file (a call the backend itself refuses stores nothing)
 	failOp   string // operation that fails when failOn (fault injection)
 	failErr  error
+	failOnce bool // the failOp fault happens once only (transient)
 	failNth  int // fault injection by position: the failNth-th fallible operation fails (0 = off)
 	failSeen int
 	readOnlyFail bool
@@ -137,6 +138,9 @@ func vpErr(op, p string, e syscall.Errno) error {
 
 func (f *vpFS) fail(op string) error {
 	if f.failOp == op {
+		if f.failOnce {
+			f.failOp = "" // a transient fault: the next attempt goes through
+		}
 		return f.failErr
 	}
 	// failNth: the n-th backend operation that can fail does, whichever it is
